@@ -45,7 +45,13 @@ Sels2 == {<<a>> : a \in RowSels(2)} \cup {<<a, b>> : a \in {IntSel(0), IntSel(-1
 \* two batch axes: an advanced row index together with a column selection is outside the modelled universe
 Adv(ss) == \E i \in DOMAIN ss : ss[i].k \in {"mask", "idx"}
 Exh2 == {[tabs |-> <<Tab2>>, ops |-> SetToSeq({GetOp(1, ss, cs) : cs \in {c \in ColSels(Sp2) : c.k = "none" \/ ~Adv(ss)}})] : ss \in Sels2}
-ExhScen == Exh1 \cup Exh2
+\* every ordered selection of distinct variables of a 4-variable table as the column part of an ASSIGNMENT
+Sp4 == <<<<"k", 1>>, <<"x", 2>>, <<"t", 1>>, <<"z", 1>>>>
+SetOp(t, rs, cs, n) == [a |-> "set", t |-> t, u |-> 0, sels |-> <<rs>>, cs |-> cs, n |-> n, op |-> "", names |-> <<>>]
+ExhSet == {[tabs |-> <<TabOf(Sp4, 3, 0)>>,
+            ops |-> SetToSeq({SetOp(1, rs, ListSel(l), IF rs.k = "int" THEN 1 ELSE Len(RowIdx(rs, 3))) : l \in {q \in NameLists(Range(SNames(Sp4))) : Len(q) = m}})] :
+              m \in 2..4, rs \in {SliceSel(None, None, 1), SliceSel(1, None, 1), IntSel(-1), IdxSel(<<2, 0>>)}}
+ExhScen == Exh1 \cup Exh2 \cup ExhSet
 
 \* ---- histories
 R(S) == RandomElement(S)
@@ -70,11 +76,13 @@ Next == /\ Len(hist) < Depth
            LET t == heap[i]  u == heap[j] IN
            CASE w \in {1, 2, 3} /\ One(t) ->
                   \E rs \in {R(RowSels(t.sh[1]) \cup {EllSel})}, cs \in {R(ColSels(t.sp))} :
-                     IF GetValid(t, <<rs>>, cs) /\ ColSpace(t.sp, cs) # <<>> /\ (rs.k \in {"int", "ell"} \/ RowIdx(rs, t.sh[1]) # <<>>)
+                     IF GetValid(t, <<rs>>, cs) /\ ColSpace(t.sp, cs) # <<>>
                      THEN Emitop([Op0 EXCEPT !.a = "get", !.t = i, !.sels = <<rs>>, !.cs = cs], Get(t, <<rs>>, cs))
                      ELSE UNCHANGED vars
              [] w = 4 /\ One(t) /\ One(u) /\ JoinValid(t, u) -> Emitop([Op0 EXCEPT !.a = "join", !.t = i, !.u = j], Join(t, u))
              [] w = 5 /\ CatValid(t, u) /\ One(t) /\ t.sh[1] + u.sh[1] <= 8 -> Emitop([Op0 EXCEPT !.a = "cat", !.t = i, !.u = j], Cat(t, u))
+             [] w = 5 /\ ~CatValid(t, u) /\ One(t) /\ One(u) ->      \* an attempt the API has to reject (different spaces)
+                  hist' = Append(hist, [Op0 EXCEPT !.a = "badcat", !.t = i, !.u = j]) /\ UNCHANGED heap
              [] w = 6 /\ One(t) /\ t.sh[1] <= 3 -> \E n \in {R(1..3)} : Emitop([Op0 EXCEPT !.a = "repeat", !.t = i, !.n = n], Repeat(t, n))
              [] w = 7 /\ One(t) /\ One(u) /\ ArithValid(t, u) ->
                   \E op \in {R({"add", "sub", "mul", "eq"})} :
